@@ -14,7 +14,7 @@ func init() {
 	Registry["C01"] = &Property{
 		Title:       "TCP-class tunnels are byte-transparent end to end and never cross-wired",
 		Run:         runC01,
-		Explanation: "Decides structural necessary conditions of byte transparency: (R1) every wrapper-stack builder applies encryption exactly under UseEncryption and compression exactly under UseCompression, with encryption next to the wire, every later consumer of the wire stream receiving all layers applied so far, the limiter's reader and writer wrapping the same stream with one bucket, and the key class agreeing with the peer; (R2) the limiter's writer loop waits for exactly the bytes it then writes, writes p[:end] and continues with p[end:] for the same end, accumulates every partial count, and end never exceeds the burst; the reader clips its buffer to the burst and waits for exactly the bytes read; (R3) a limiter is created only for a positive limit and only on the side named by bandwidthLimitMode, with rate and burst from the configured quantity; (R4) functions that sniff bytes from a shared connection hand on the replaying half (tabled exceptions: custom TLS byte, non-passthrough CONNECT); (R5) StartWorkConn names the proxy and carries the caller's addresses, and the client dispatches on that name (closing on a miss); (R6) the proxy-protocol header is built from the StartWorkConn addresses and written before the streams are joined, only when configured; (R7) user and work connections are closed on every exit; (R8) a pooled compression codec is recycled only by defer or after the join. Also (R9) duplicate route detection is case-insensitive (shared with C06.R3/R4: a host claimed twice cross-wires two proxies). Not decided: byte equality through AES-CFB, snappy, yamux, kcp, quic, websocket and TLS; eventual delivery; bounded closing time; the numeric bandwidth bound (arithmetic of x/time/rate).",
+		Explanation: "Decides structural necessary conditions of byte transparency: (R1) every wrapper-stack builder applies encryption exactly under UseEncryption and compression exactly under UseCompression, with encryption next to the wire, every later consumer of the wire stream receiving all layers applied so far, the limiter's reader and writer wrapping the same stream with one bucket, and the key class agreeing with the peer; (R2) the limiter's writer loop waits for exactly the bytes it then writes, writes p[:end] and continues with p[end:] for the same end, accumulates every partial count, and end never exceeds the burst; the reader clips its buffer to the burst and waits for exactly the bytes read; (R3) a limiter is created only for a positive limit and only on the side named by bandwidthLimitMode, with rate and burst from the configured quantity; (R4) functions that sniff bytes from a shared connection hand on the replaying half (tabled exceptions: custom TLS byte, non-passthrough CONNECT); (R5) StartWorkConn names the proxy and carries the caller's addresses, and the client dispatches on that name (closing on a miss); (R6) the proxy-protocol header is built from the StartWorkConn addresses and written before the streams are joined, only when configured; (R7) user and work connections are closed on every exit; (R8) a pooled compression codec is recycled only by defer or after the join. Also (R9) duplicate route detection is case-insensitive (shared with C06.R3/R4: a host claimed twice cross-wires two proxies). (R10) closing a QUIC-backed connection finishes the send side (Stream.Close) on every path and never resets it (no CancelWrite anywhere in the product code): a reset discards data the peer has not read yet. Not decided: byte equality through AES-CFB, snappy, yamux, kcp, quic, websocket and TLS; eventual delivery; bounded closing time; the numeric bandwidth bound (arithmetic of x/time/rate).",
 		Assumptions: commonAssumptions,
 	}
 }
@@ -29,6 +29,7 @@ func runC01(c *engine.Ctx) {
 	checkJoinClosure(c, "R7")
 	checkRecycle(c, "R8")
 	checkRouterDuplicates(c, "R9")
+	checkGracefulClose(c, "R10")
 }
 
 // ---- R2 ----
@@ -707,5 +708,92 @@ func checkRouterDuplicates(c *engine.Ctx, rule string) {
 			return ""
 		}}, "write only for a new triple")
 	})
+	c.Floor(n, 2)
+}
+
+// ---- R10 ----
+
+// checkGracefulClose: "the peer receives the complete stream followed by end-of-stream". For the QUIC transport the
+// stream adapter's Close must finish the send side (Stream.Close sends FIN after the buffered data) and nothing in the
+// product code may reset it (CancelWrite drops unread data at the peer). CancelRead is the positive control of the
+// matcher: it is called by the adapter today, so a matcher that sees no quic stream method call at all is broken.
+func checkGracefulClose(c *engine.Ctx, rule string) {
+	c.Rule(rule, "QUIC stream adapter: Close calls the stream's Close and CancelRead on every path; no product function calls CancelWrite on a quic stream (a reset discards data the peer has not read)")
+	p := c.P
+	isQuicMethod := func(in ssa.Instruction, name string) bool {
+		call, ok := in.(ssa.CallInstruction)
+		if !ok {
+			return false
+		}
+		cc := call.Common()
+		var recv types.Type
+		mname := ""
+		if cc.IsInvoke() {
+			recv, mname = cc.Value.Type(), cc.Method.Name()
+		} else if o := engine.CalleeObj(call); o != nil {
+			if sig, ok := o.Type().(*types.Signature); ok && sig.Recv() != nil {
+				recv, mname = sig.Recv().Type(), o.Name()
+			}
+		}
+		if mname != name || recv == nil {
+			return false
+		}
+		n := engine.NamedOf(recv)
+		return n != nil && n.Obj().Pkg() != nil && strings.HasSuffix(n.Obj().Pkg().Path(), "quic-go")
+	}
+	cancelRead, n := 0, 0
+	for _, f := range p.RepoFuncs() {
+		engine.ForEachInstr(f, func(in ssa.Instruction) {
+			if isQuicMethod(in, "CancelRead") {
+				cancelRead++
+			}
+			if isQuicMethod(in, "CancelWrite") {
+				c.Violate(p.FuncName(f)+">CancelWrite", in.Pos(), nil, "the send side of a QUIC stream is reset: data the peer has not read yet is discarded instead of being delivered before end-of-stream")
+			}
+		})
+	}
+	n++
+	c.Check(cancelRead >= 1, "quic-stream-method-matcher", token.NoPos, cancelRead, nil, "positive control: the matcher sees the adapter's CancelRead call (%d)", cancelRead)
+	// the adapter: any repo type that embeds a quic stream and defines its own Close (found by shape, not by name)
+	for _, cl := range p.RepoFuncs() {
+		if cl.Name() != "Close" || cl.Parent() != nil || cl.Signature.Recv() == nil {
+			continue
+		}
+		st, ok := engine.Deref(cl.Signature.Recv().Type()).Underlying().(*types.Struct)
+		if !ok {
+			continue
+		}
+		embeds := false
+		for i := 0; i < st.NumFields(); i++ {
+			if fv := st.Field(i); fv.Embedded() {
+				if nn := engine.NamedOf(fv.Type()); nn != nil && nn.Obj().Pkg() != nil && strings.HasSuffix(nn.Obj().Pkg().Path(), "quic-go") && nn.Obj().Name() == "Stream" {
+					embeds = true
+				}
+			}
+		}
+		if !embeds {
+			continue
+		}
+		n++
+		c.AllPaths(p.FuncName(cl), engine.PathCheck{Fn: cl, Sink: engine.IsReturn,
+			Event: func(in ssa.Instruction) string {
+				if isQuicMethod(in, "Close") {
+					return "fin"
+				}
+				if isQuicMethod(in, "CancelRead") {
+					return "cancel-read"
+				}
+				return ""
+			},
+			Pred: func(st *engine.PathState) string {
+				if !st.HasEvent("fin") {
+					return "Close returns without finishing the QUIC stream: the peer never sees end-of-stream"
+				}
+				if !st.HasEvent("cancel-read") {
+					return "Close returns without aborting the receive side: quic's Stream.Close only closes the send side, so a goroutine blocked in Read on this connection (the control's reader after a heartbeat timeout) is never woken and the session is not torn down"
+				}
+				return ""
+			}}, "Stream.Close and CancelRead on every path")
+	}
 	c.Floor(n, 2)
 }
